@@ -235,6 +235,8 @@ def mkexc(tok: str) -> Exception:
     from pydoctor.epydoc.markup import ParseError
     if tok == "ni":
         return NotImplementedError()
+    if tok == "as":
+        return AssertionError()
     if tok[0] == "p":
         return ParseError("P" + tok[1:])
     return ValueError("E" + tok[1:])
@@ -265,6 +267,8 @@ def descr_token_fault(d: str) -> str:
         return "xp" + m.group(1)
     if d == "NotImplementedError: ":
         return "xni"
+    if d == "AssertionError: ":
+        return "xas"
     return "other:" + d[:40].replace(" ", "_")
 
 
@@ -488,9 +492,8 @@ def fault_patches(w: World):
             return real_p_html2stan(text)
         if w.sig_now[0] == "x":
             raise mkexc(w.sig_now[1:])
-        return tags_p("STAN" + w.sig_now[1:])
+        return _tags.p("STAN" + w.sig_now[1:])   # `_tags.p` makes a fresh Tag on every attribute access
     from twisted.web.template import tags as _tags
-    tags_p = _tags.p
     epydoc2stan.get_parser_by_name = get_parser
     markup.SummaryExtractor = summary_extractor
     markup.build_table_of_content = build_toc
@@ -630,12 +633,8 @@ def run_ops(w: World, ops, stan_role=None, limit: float = 20.0):
                     from pydoctor.templatewriter import search
                     r = search.LunrIndexWriter.format_docstring(None, o)
                     src = E.ensure_parsed_docstring(o)
-                    if r is None:
-                        tok = "srch=N"
-                    elif src is not None and r == src.docstring and r != "":
-                        tok = "srch=doc:" + enc(r)
-                    else:
-                        tok = "srch=node"
+                    # the text of the node tree and the raw docstring cannot be told apart from outside: "some text"
+                    tok = "srch=N" if r is None else "srch=text"
                 if ent["stan"] is not None:
                     _, ent["flat_err"] = flatten_safely(ent["stan"])
         except Hang:
